@@ -1,1 +1,24 @@
-From QV Require Import Base Fields SrcFacts Msg SrcDecisions Sim Prober Hostname Provider ProviderSpec.
+(* Properties_C12.v — a provider converges to the most recently supplied service. *)
+From QV Require Import Base Fields SrcFacts Msg SrcDecisions Sim Prober Hostname Provider ProviderSpec ProviderProofs.
+Local Open Scope Z_scope.
+
+(* PARTIAL.  Proved here: the two publishing steps.  (1) publish() serves exactly the proposals that update() wrote
+   from the last supplied service; (2) the handler of a completed probe rewrites the proposals to the confirmed
+   candidate name and publishes them, withdrawing what was served before.  The convergence statement itself
+   (C12_quiescent_correct: in every quiescent reachable state the served records are those of the last supplied
+   service under the latest probed candidate with the registered hostname as target) is enforced on every run by
+   the acceptor's final check (codes 30-34) on implementation and model traces; its invariant proof is not yet written. *)
+Theorem C12_publish_serves_proposals_partial p :
+  let p' := fst (publish p) in
+  pv_browse p' = pv_browseP p /\ pv_ptr p' = pv_ptrP p /\ pv_srv p' = pv_srvP p /\ pv_txt p' = pv_txtP p /\
+  snd (publish p) = [ESendAll (add_record (pv_txtP p) (add_record (pv_srvP p) (add_record (pv_ptrP p) (set_response true default_message))))].
+Proof. exact (publish_serves_proposals p). Qed.
+Print Assumptions C12_publish_serves_proposals_partial.
+
+Theorem C12_confirmation_publishes_partial name p :
+  pv_confirmed p = true ->
+  exists bye ann, snd (on_name_confirmed name p) = [ESendAll bye; ESendAll ann] /\
+    m_records bye = [set_ttl 0 (pv_ptr p); set_ttl 0 (pv_srv p); set_ttl 0 (pv_txt p)] /\
+    m_records ann = [set_target name (pv_ptrP p); set_name name (pv_srvP p); set_name name (pv_txtP p)].
+Proof. exact (name_confirmed_withdraws_first name p). Qed.
+Print Assumptions C12_confirmation_publishes_partial.
